@@ -1,4 +1,37 @@
-"""Conversions between JSON-able case data and gambatools objects (used inside workers)."""
+"""Conversions between JSON-able case data and gambatools objects (used inside workers).
+
+Object recycling (VERIF_RECYCLE=1, set by the driver for one extra pass per check): instead of constructing a new library
+object for every case, the k-th object of a kind built for the previous case is REFILLED IN PLACE with the content of the new
+case (same Python object, same container objects).  Whatever the library remembered about the object (weak-key caches,
+lru_cache on the object, attributes stored on it) is then stale, and the observation is judged against the model of the new
+content as always.  Objects needed at the same time within one case are always distinct objects."""
+import os
+
+_RECYCLE = os.environ.get('VERIF_RECYCLE') == '1'
+_pool, _idx = {}, {}
+
+
+def new_case():
+    _idx.clear()
+
+
+def _recycled(kind, make, refill):
+    if not _RECYCLE:
+        return make()
+    i = _idx.get(kind, 0)
+    _idx[kind] = i + 1
+    lst = _pool.setdefault(kind, [])
+    if i < len(lst):
+        refill(lst[i])
+        return lst[i]
+    obj = make()
+    lst.append(obj)
+    return obj
+
+
+def _reset(container, items):
+    container.clear()
+    container.update(items)
 SYMS = 'abcdefgh01_ε'
 
 
@@ -64,7 +97,14 @@ def re_str(t):
 def tm_obj(c):
     from gambatools.tm import TM
     delta = {(p, a): (q, b, d) for (p, a, q, b, d) in c['delta']}
-    return TM(set(c['Q']), set(c['Sigma']), set(c['Gamma']), delta, c['q0'], c['qa'], c['qr'], c['blank'])
+
+    def refill(T):
+        _reset(T.Q, c['Q'])
+        _reset(T.Sigma, c['Sigma'])
+        _reset(T.Gamma, c['Gamma'])
+        _reset(T.delta, delta)
+        T.q0, T.q_accept, T.q_reject, T.blank = c['q0'], c['qa'], c['qr'], c['blank']
+    return _recycled('tm', lambda: TM(set(c['Q']), set(c['Sigma']), set(c['Gamma']), delta, c['q0'], c['qa'], c['qr'], c['blank']), refill)
 
 
 def tm_text(c):
@@ -79,7 +119,14 @@ def tm_text(c):
 def dfa_obj(c, check=True):
     from gambatools.dfa import DFA
     delta = {(q, a): q1 for (q, a, q1) in c['delta']}
-    return DFA(set(c['Q']), set(c['Sigma']), delta, c['q0'], set(c['F']), check_validity=check)
+
+    def refill(D):
+        _reset(D.Q, c['Q'])
+        _reset(D.Sigma, c['Sigma'])
+        _reset(D.delta, delta)
+        D.q0 = c['q0']
+        _reset(D.F, c['F'])
+    return _recycled('dfa', lambda: DFA(set(c['Q']), set(c['Sigma']), delta, c['q0'], set(c['F']), check_validity=check), refill)
 
 
 def dfa_case(D):
@@ -100,7 +147,16 @@ def nfa_obj(c, plain_dict=False):
     delta = {} if plain_dict else defaultdict(set)
     for (q, a, qs) in c['delta']:
         delta[(q, a)] = set(qs)
-    return NFA(set(c['Q']), set(c['Sigma']), delta, c['q0'], set(c['F']), c['eps'])
+
+    def refill(N):
+        _reset(N.Q, c['Q'])
+        _reset(N.Sigma, c['Sigma'])
+        N.delta.clear()
+        for k, v in delta.items():
+            N.delta[k] = v
+        N.q0, N.epsilon = c['q0'], c['eps']
+        _reset(N.F, c['F'])
+    return _recycled('nfa_plain' if plain_dict else 'nfa', lambda: NFA(set(c['Q']), set(c['Sigma']), delta, c['q0'], set(c['F']), c['eps']), refill)
 
 
 def nfa_case(N):
@@ -122,7 +178,13 @@ def cfg_obj(c):
     from gambatools.cfg import CFG, Rule, Alternative, Variable, Terminal
     mk = lambda s: Variable(s[1]) if s[0] == 'V' else Terminal(s[1])
     R = [Rule(Variable(v), Alternative([mk(s) for s in rhs])) for (v, rhs) in c['R']]
-    return CFG(set(Variable(v) for v in c['V']), set(Terminal(t) for t in c['Sigma']), R, Variable(c['S']), check_validity=False)
+
+    def refill(G):
+        _reset(G.V, [Variable(v) for v in c['V']])
+        _reset(G.Sigma, [Terminal(t) for t in c['Sigma']])
+        G.R[:] = R
+        G.S = Variable(c['S'])
+    return _recycled('cfg', lambda: CFG(set(Variable(v) for v in c['V']), set(Terminal(t) for t in c['Sigma']), R, Variable(c['S']), check_validity=False), refill)
 
 
 def cfg_case(G):
@@ -163,7 +225,17 @@ def pda_obj(c):
     delta = defaultdict(set)
     for (p, a, u, q, v) in c['delta']:
         delta[(p, a, u)].add((q, v))
-    return PDA(set(c['Q']), set(c['Sigma']), set(c['Gamma']), delta, c['q0'], set(c['F']), c['eps'])
+
+    def refill(P):
+        _reset(P.Q, c['Q'])
+        _reset(P.Sigma, c['Sigma'])
+        _reset(P.Gamma, c['Gamma'])
+        P.delta.clear()
+        for k, v in delta.items():
+            P.delta[k] = v
+        P.q0, P.epsilon = c['q0'], c['eps']
+        _reset(P.F, c['F'])
+    return _recycled('pda', lambda: PDA(set(c['Q']), set(c['Sigma']), set(c['Gamma']), delta, c['q0'], set(c['F']), c['eps']), refill)
 
 
 def pda_case(P):
